@@ -1,6 +1,7 @@
 package main
 
 import (
+	"os"
 	"fmt"
 	"go/ast"
 	"go/token"
@@ -32,7 +33,7 @@ func c02R1(p *Prog, r *Report) {
 	const rule = "C02-R1"
 	r.Rule(rule, "authenticate before use: the length field is read, headers are parsed and byte counts are reported only on the err == nil edge of the AEAD open of the very bytes concerned; a chunk reader that fails reports zero bytes; callers touch the chunk only on the reader's err == nil edge")
 	// (a) ShadowStreamConn.read
-	rd := p.Func("ss2022", "ShadowStreamConn", "read")
+	rd := p.Inlined(p.Func("ss2022", "ShadowStreamConn", "read"))
 	info := rd.Info()
 	var decs []CallSite
 	for _, cs := range rd.AllCalls() {
@@ -77,6 +78,9 @@ func c02R1(p *Prog, r *Report) {
 						for _, ret := range rd.ExitPreds() {
 							if reach[ret] && rd.ErrAtReturn(ret) != ErrNonNil {
 								all = false
+								if os.Getenv("VERIF_DBG") != "" {
+									fmt.Fprintln(os.Stderr, "DBG zero: reaches", ret, exprStr(rd.G.V[ret].Node), rd.ErrAtReturn(ret))
+								}
 							}
 						}
 						if all {
@@ -393,36 +397,30 @@ func c02R2(p *Prog, r *Report) {
 		}
 	}
 	bound, lenOK := false, false
-	ast.Inspect(ds.Body, func(n ast.Node) bool {
-		kv, ok := n.(*ast.KeyValueExpr)
-		if !ok {
-			return true
+	// the values given to the connection's requestSalt / requestSaltLen fields, whether in a
+	// composite literal or by assignment
+	for _, val := range fieldInits(ds, "requestSalt") {
+		if c, ok := ast.Unparen(ds.Resolve(val)).(*ast.CallExpr); ok && len(c.Args) == 1 {
+			if fn := Callee(dinfo, c); fn != nil && fn.Name() == "lengthExtendSalt" && saltObj != nil && objOf(dinfo, c.Args[0]) == saltObj {
+				bound = true
+			}
 		}
-		id, ok := kv.Key.(*ast.Ident)
-		if !ok {
-			return true
+	}
+	for _, val := range fieldInits(ds, "requestSaltLen") {
+		if saltObj == nil {
+			break
 		}
-		if id.Name == "requestSalt" {
-			if c, ok := ast.Unparen(kv.Value).(*ast.CallExpr); ok && len(c.Args) == 1 {
-				if fn := Callee(dinfo, c); fn != nil && fn.Name() == "lengthExtendSalt" && saltObj != nil && objOf(dinfo, c.Args[0]) == saltObj {
-					bound = true
+		// saltLen with salt := b[urspLen:identityHeadersStart], identityHeadersStart = urspLen + saltLen
+		lo := objOf(dinfo, val)
+		if rhs, _, _, ok := ds.SoleDefRHS(saltObj); ok && lo != nil {
+			if sl, ok := ast.Unparen(rhs).(*ast.SliceExpr); ok && sl.Low != nil && sl.High != nil {
+				hr := ds.Resolve(sl.High)
+				if be, ok := hr.(*ast.BinaryExpr); ok && be.Op == token.ADD && exprStr(be.X) == exprStr(sl.Low) && objOf(dinfo, be.Y) == lo {
+					lenOK = true
 				}
 			}
 		}
-		if id.Name == "requestSaltLen" && saltObj != nil {
-			// saltLen with salt := b[urspLen:identityHeadersStart], identityHeadersStart = urspLen + saltLen
-			lo := objOf(dinfo, kv.Value)
-			if rhs, _, _, ok := ds.SoleDefRHS(saltObj); ok && lo != nil {
-				if sl, ok := ast.Unparen(rhs).(*ast.SliceExpr); ok && sl.Low != nil && sl.High != nil {
-					hr := ds.Resolve(sl.High)
-					if be, ok := hr.(*ast.BinaryExpr); ok && be.Op == token.ADD && exprStr(be.X) == exprStr(sl.Low) && objOf(dinfo, be.Y) == lo {
-						lenOK = true
-					}
-				}
-			}
-		}
-		return true
-	})
+	}
 	r.Check(bound, rule, "ss2022.(*StreamClient).DialStream:remembers-sealed-salt", p.posStr(ds.Body.Pos()), "requestSalt is the salt the request cipher was derived from", "the salt remembered for response validation is not the salt the request was sealed with")
 	r.Check(lenOK, rule, "ss2022.(*StreamClient).DialStream:remembers-salt-length", p.posStr(ds.Body.Pos()), "requestSaltLen is the length of that salt", "requestSaltLen is not the length of the request salt: the comparison covers only part of (or more than) the salt")
 	// server: initWrite echoes c.requestSalt[:c.requestSaltLen]; HandleStream stores extendedSalt of the authenticated request
@@ -442,25 +440,18 @@ func c02R2(p *Prog, r *Report) {
 		}
 	}
 	echoed, extOK := false, false
-	ast.Inspect(hs.Body, func(n ast.Node) bool {
-		kv, ok := n.(*ast.KeyValueExpr)
-		if !ok {
-			return true
-		}
-		if id, ok := kv.Key.(*ast.Ident); ok && id.Name == "requestSalt" {
-			if o := objOf(hinfo, kv.Value); o != nil && o == addArg {
-				echoed = true
-				if rhs, _, _, ok := hs.SoleDefRHS(o); ok {
-					if c, ok := ast.Unparen(rhs).(*ast.CallExpr); ok && len(c.Args) == 1 {
-						if fn := Callee(hinfo, c); fn != nil && fn.Name() == "lengthExtendSalt" && objOf(hinfo, c.Args[0]) == cipherSalt && cipherSalt != nil {
-							extOK = true
-						}
+	for _, val := range fieldInits(hs, "requestSalt") {
+		if o := objOf(hinfo, val); o != nil && o == addArg {
+			echoed = true
+			if rhs, _, _, ok := hs.SoleDefRHS(o); ok {
+				if c, ok := ast.Unparen(rhs).(*ast.CallExpr); ok && len(c.Args) == 1 {
+					if fn := Callee(hinfo, c); fn != nil && fn.Name() == "lengthExtendSalt" && objOf(hinfo, c.Args[0]) == cipherSalt && cipherSalt != nil {
+						extOK = true
 					}
 				}
 			}
 		}
-		return true
-	})
+	}
 	r.Check(echoed && extOK, rule, "ss2022.(*StreamServer).HandleStream:stores-authenticated-request-salt", p.posStr(hs.Body.Pos()), "the salt stored for the response is the salt checked into the pool and used to derive the request cipher", "the salt stored for the response is not the salt of the request that was authenticated")
 	r.Floor(rule, 9)
 }
